@@ -261,7 +261,7 @@ class UpdateCSR(EFMethod):
     uf_mul = 'sign'      # only the sign rules of multiplication are needed
     uf_div = True
     # concrete sizes for the bounded re-check (used only after the loop contracts stopped fitting)
-    bounded_cases = [(lambda nb_, nm_: (lambda cx: [cx.f(PS_NX) == 2, cx.f(PS_NY) == 2, cx.f(PS_NB) == nb_, cx.f('this._nmax', 'u64') == nm_]))(a_, b_) for a_, b_ in ((1, 2), (2, 3))]
+    bounded_cases = [(lambda nb_, nm_: (lambda cx: [cx.f(PS_NX) == 2, cx.f(PS_NY) == 2, cx.f(PS_NB) == nb_, cx.f('this._nmax', 'u64') == nm_]))(a_, b_) for a_, b_ in ((1, 2), (2, 3), (1, 3))]
     GIN = 'ghost.csr_in'  # ghost: the sequence handed to the forward transform in the iteration of ghost bunch n
 
     @property
